@@ -317,43 +317,7 @@ func checkC13(c *Ctx, w *World) {
 	// who may write the table
 	m.whoMayWrite("C13.member", "multiEndpoint.endpoints", map[string][]string{fname(m.setEps): {"map-insert", "map-delete"}, fname(m.ctor): {"store"}})
 
-	// ---- C13.reeval
-	watched := map[string]bool{"multiEndpoint.endpoints": true, "endpoint.status": true, "endpoint.priority": true}
-	for _, root := range []*ssa.Function{m.setEps, m.sea, m.recovery} {
-		var mucCalls = map[ssa.Instruction]bool{}
-		var writes []ssa.Instruction
-		eachInstr(root, func(in ssa.Instruction) {
-			if cc := callCommon(in); cc != nil {
-				for _, g := range p.calleesOf(cc) {
-					if g == m.muc {
-						mucCalls[in] = true
-						return
-					}
-					for f := range m.sums.Trans[g].Writes {
-						if watched[f] {
-							writes = append(writes, in)
-							return
-						}
-					}
-				}
-			}
-		})
-		for _, a := range m.ai.ByFn[root] {
-			if watched[a.Field] && a.isWrite() && !freshAt(a.Base, a.Instr) {
-				writes = append(writes, a.Instr)
-			}
-		}
-		okAll := len(writes) > 0
-		var miss string
-		for _, wr := range writes {
-			if !everyPathHits(wr, mucCalls) {
-				okAll = false
-				miss = p.ipos(wr)
-			}
-		}
-		c.check(okAll, "C13.reeval", fname(root), p.pos(root.Pos()), fmt.Sprintf("every one of its %d table/status/priority writes is followed on every path by maybeUpdateCurrent before the lock is released", len(writes)),
-			"a mutation of the endpoint table or an availability change can return without re-evaluating current (write at "+miss+")")
-	}
+	reevalRules(m, c, func(r string) string { return r })
 
 	// ---- C13.decision (maybeUpdateCurrent)
 	var curLk *ssa.Lookup
@@ -538,6 +502,51 @@ func checkC13(c *Ctx, w *World) {
 
 	// ---- C13.nonempty / C13.reject
 	checkNonEmpty(m)
+}
+
+// reevalRules: every mutator re-evaluates current after its last table/status/priority write on every path before
+// unlocking. Shared by C13 and C14 (convergence: once inputs stop, Current() is the top available endpoint — which
+// needs the last input to have re-evaluated).
+func reevalRules(m *mectx, c *Ctx, R func(string) string) {
+	p := m.p
+	// ---- C13.reeval
+	watched := map[string]bool{"multiEndpoint.endpoints": true, "endpoint.status": true, "endpoint.priority": true}
+	for _, root := range []*ssa.Function{m.setEps, m.sea, m.recovery} {
+		var mucCalls = map[ssa.Instruction]bool{}
+		var writes []ssa.Instruction
+		eachInstr(root, func(in ssa.Instruction) {
+			if cc := callCommon(in); cc != nil {
+				for _, g := range p.calleesOf(cc) {
+					if g == m.muc {
+						mucCalls[in] = true
+						return
+					}
+					for f := range m.sums.Trans[g].Writes {
+						if watched[f] {
+							writes = append(writes, in)
+							return
+						}
+					}
+				}
+			}
+		})
+		for _, a := range m.ai.ByFn[root] {
+			if watched[a.Field] && a.isWrite() && !freshAt(a.Base, a.Instr) {
+				writes = append(writes, a.Instr)
+			}
+		}
+		okAll := len(writes) > 0
+		var miss string
+		for _, wr := range writes {
+			if !everyPathHits(wr, mucCalls) {
+				okAll = false
+				miss = p.ipos(wr)
+			}
+		}
+		c.check(okAll, R("C13.reeval"), fname(root), p.pos(root.Pos()), fmt.Sprintf("every one of its %d table/status/priority writes is followed on every path by maybeUpdateCurrent before the lock is released", len(writes)),
+			"a mutation of the endpoint table or an availability change can return without re-evaluating current (write at "+miss+")")
+	}
+
 }
 
 func isInLoopBody(b, header *ssa.BasicBlock) bool {
